@@ -43,6 +43,62 @@ UNBOUNDED_ITER = ('repeat', 'cycle')
 TYPES = {}
 
 
+def cursor_loop(ctx, body, lp):
+    """a `while` loop that consumes a byte slice: some slice-typed local is re-defined, on every iteration that continues, as the
+    tail of itself after a constant number n >= 1 of elements (`rest = rest.split_at(n).1`), so the loop runs at most len/n times.
+    Returns a description, or None."""
+    ix = ctx.eng.bx(body)
+    for l in range(body.argc + 1, len(body.locals)):
+        import re as _re
+        if not _re.match(r"^&('\w+ )?(mut )?\[", body.local_ty(l)):
+            continue
+        ins = [d for d in ix.whole_defs(l) if d[0] in lp.blocks]
+        outs = [d for d in ix.whole_defs(l) if d[0] not in lp.blocks]
+        if not ins or not outs:
+            continue
+        good = True
+        n_min = None
+        for d in ins:
+            t = ctx.eng.rvalue(body, d[0], d[1], d[3]['rv']) if d[2] == 'assign' else ctx.eng.call_result(body, d[0])
+            while t.tag == 'mut':
+                t = t[1]
+            # field 1 of split_at(<this local, as carried into the iteration>, n)
+            if not (t.tag == 'field' and t[1] == '1' and t[2].tag == 'adapt' and t[2][1] in ('split_at', 'split_at_checked') and len(t[2].args) >= 3):
+                good = False
+                break
+            src, n = t[2][2], t[2][3]
+            while src.tag == 'mut':
+                src = src[1]
+            nn = n[1] if n.tag == 'const' and isinstance(n[1], int) else None
+            if n.tag == 'binop' and n[1] == 'Mul' and all(x.tag == 'const' and isinstance(x[1], int) for x in (n[2], n[3])):
+                nn = n[2][1] * n[3][1]
+            if not (src.tag == 'lv' and src[2] == l) or nn is None or nn < 1:
+                good = False
+                break
+            n_min = nn if n_min is None else min(n_min, nn)
+        if not good:
+            continue
+        # the loop continues only through such a definition
+        if all(ctx.every_iteration(body, lp, d[0]) for d in ins) or len(ins) == 1 and _back_edges_pass(ctx, body, lp, ins[0][0]):
+            return 'every continuing iteration advances the slice `%s` by %d element(s) (at most len/%d iterations)' % (body.local_name(l) or '_%d' % l, n_min, n_min)
+    return None
+
+
+def _back_edges_pass(ctx, body, lp, dbb):
+    """every path from the loop header back to the header passes block dbb"""
+    cfg = ctx.cfgof(body)
+    seen, work = set(), [s_ for s_ in cfg.succ.get(lp.header, []) if s_ in lp.blocks]
+    while work:
+        x = work.pop()
+        if x in seen or x == dbb:
+            continue
+        seen.add(x)
+        if x == lp.header:
+            return False
+        work.extend(s_ for s_ in cfg.succ.get(x, []) if s_ in lp.blocks)
+    return True
+
+
 def roots(ctx, rule):
     out = []
     for r in ROOTS:
@@ -81,7 +137,11 @@ def run(ctx):
                 rep.ok('R-C16-3', key, 'tabled: rejection sampling (loop exits as soon as the draw is non-zero): terminates with probability 1, one expected iteration', ctx.where(b, h), nontrivial=False)
                 continue
             if lp.driver_bb is None:
-                rep.violation('R-C16-3', key, 'loop without an iterator driver (while/loop) in code reachable from untrusted input', ctx.where(b, h))
+                why = cursor_loop(ctx, b, lp)
+                if why:
+                    rep.ok('R-C16-3', key, 'cursor loop: ' + why, ctx.where(b, h))
+                else:
+                    rep.violation('R-C16-3', key, 'loop without an iterator driver (while/loop) in code reachable from untrusted input', ctx.where(b, h))
                 continue
             bad = unbounded(lp.iter_term)
             rep.check(not bad, 'R-C16-3', key, 'loop driven by Iterator::next over %s' % short(lp.iter_term, 160),
